@@ -271,6 +271,9 @@ def run(tier, seed):
         hists.append(h)
     for leg in legs:
         jobs = [diff.job_for(h, "h%d" % i) for i, h in enumerate(hists)]
+        for ji, j in enumerate(jobs):
+            if ji % 5 == 2:
+                diff.age(j, ctx.rng, ctx.rng.choice([50, 400]))
         recs = core.run_jobs(jobs, leg, timeout=600 if tier == "quick" else 3000, tag="c03")
         for h, rec in zip(hists, recs):
             ctx.evaluations += 1
